@@ -36,7 +36,7 @@ type c20Group struct {
 	GoMaxProcs int         `json:"gomaxprocs"`
 }
 
-var c20Kinds = []string{"post", "post-same-session", "getmessages", "create-delete", "status", "config-read", "expire", "snapshot", "direct-ircserver", "direct-output", "direct-store", "nick-while-polling", "restore"}
+var c20Kinds = []string{"post", "post-same-session", "getmessages", "create-delete", "status", "config-read", "expire", "snapshot", "direct-ircserver", "direct-output", "direct-store", "nick-while-polling", "getmessages-reconnect", "restore"}
 
 func c20Run(g c20Group, base string, k int) (overlap bool, err error) {
 	dir := newNodeDir(base, k)
@@ -117,6 +117,20 @@ func c20Run(g c20Group, base string, k int) (overlap bool, err error) {
 					}
 					n.readStream(cred, cred.Auth, "0.0", func(m []streamed) bool { return len(m) > 3 }, 15*time.Millisecond)
 					atomic.AddInt32(&touching, -1)
+				case "getmessages-reconnect":
+					// the client reconnects while its previous long-poll is still open: the new request supersedes it
+					var inner sync.WaitGroup
+					inner.Add(2)
+					go func() {
+						defer inner.Done()
+						n.readStream(cred, cred.Auth, "0.0", nil, 12*time.Millisecond)
+					}()
+					time.Sleep(time.Duration(r.Intn(3)) * time.Millisecond)
+					go func() {
+						defer inner.Done()
+						n.readStream(cred, cred.Auth, "0.0", nil, 4*time.Millisecond)
+					}()
+					inner.Wait()
 				case "nick-while-polling":
 					// a session without nickname long-polls (the status page then falls back to the
 					// session's current nickname) while it registers
@@ -270,7 +284,7 @@ func TestVerifC20(t *testing.T) {
 		restore := r.Intn(6) == 0
 		for s := 0; s < ns; s++ {
 			kind := c20Kinds[r.Intn(len(c20Kinds)-1)] // restore is chosen separately
-			if restore && (kind == "getmessages" || kind == "direct-output" || kind == "direct-store" || kind == "status" || kind == "snapshot" || kind == "nick-while-polling") {
+			if restore && (kind == "getmessages" || kind == "direct-output" || kind == "direct-store" || kind == "status" || kind == "snapshot" || kind == "nick-while-polling" || kind == "getmessages-reconnect") {
 				// a running restore closes the output stream and the log copy under readers and under
 				// a snapshot that is being persisted (crashes, not data races: see DESIGN.md section 9)
 				kind = "post"
